@@ -1275,6 +1275,7 @@ def search(ctx):
     t0 = ctx.elapsed()
     done = 0
     shrunk = set()  # minimise the first failure of each signature only
+    per_sig = {}
     corr = []
     refused = accepted_unsupported = 0
     refusal_example = None
@@ -1318,6 +1319,9 @@ def search(ctx):
         if sig is None and logs is not None and len(corr) < ctx.scale(4000, 40000):
             corr.extend(corr_from_logs(case, logs))
         if sig is not None:
+            per_sig[sig] = per_sig.get(sig, 0) + 1
+            if per_sig[sig] > 8:
+                continue  # same class already reported with 8 concrete programs
             small = shrink(case, sig) if sig not in shrunk else case
             shrunk.add(sig)
             s2, d2, _ = run_case(small)
@@ -1326,6 +1330,8 @@ def search(ctx):
             ctx.fail(f"store:{sig}", {"kind": "store", "program": small, "details": d2},
                      "da.store result differs from NumPy slice assignment into a sentinel-filled target")
     ctx.notes["store_programs"] = done
+    if per_sig:
+        ctx.notes["store_failures_by_signature"] = dict(per_sig)
     ctx.notes["store_refusals_of_unsupported_regions"] = refused
     if refusal_example is not None:
         ctx.notes["store:negative-region-refused(example)"] = refusal_example
